@@ -256,6 +256,17 @@ pub fn propagate_arithmetic(
     right_child: &Interval,
 ) -> Result<Option<(Interval, Interval)>> {
     let inverse_op = get_inverse_op(*op)?;
+    // Integer division truncates; i.e. `x / y = p` implies neither `x = y * p`
+    // nor `y = x / p` (e.g. `5 / 3 = 1`). Since the inverse operations below
+    // do not account for the remainder, refining the children through them
+    // would discard feasible values. Be conservative and leave the children
+    // as they are in this case.
+    if *op == Operator::Divide
+        && left_child.data_type().is_integer()
+        && right_child.data_type().is_integer()
+    {
+        return Ok(Some((left_child.clone(), right_child.clone())));
+    }
     match (left_child.data_type(), right_child.data_type()) {
         // If we have a child whose type is a time interval (i.e. DataType::Interval),
         // we need special handling since timestamp differencing results in a
